@@ -268,6 +268,31 @@ def run(ctx):
         w = CC.impl_write(parsed_t, datum)
         if w[0] == "ok":
             prefix_jobs.append((raw, parsed_t, named_t, w[1]))
+    # ---- corr:skip-by-name (deterministic): the skipped writer-only field's type is a BY-NAME reference to an enum / fixed /
+    # record defined earlier (directly, as array items, map values, union branch): skipping must consume exactly that value
+    defs = {"type": "record", "name": "Defs9", "fields": [
+        {"name": "e", "type": {"type": "enum", "name": "E9", "symbols": ["A", "B", "C"]}}, {"name": "f", "type": {"type": "fixed", "name": "F9", "size": 3}},
+        {"name": "r", "type": {"type": "record", "name": "R9", "fields": [{"name": "x", "type": "long"}, {"name": "s", "type": "string"}]}}]}
+    dval = {"e": "B", "f": b"abc", "r": {"x": -7, "s": "xy"}}
+    for atype, aval in [("E9", "C"), ("F9", b"xyz"), ("R9", {"x": 1 << 40, "s": ""}), ({"type": "array", "items": "E9"}, ["A", "C", "B"]),
+                        ({"type": "array", "items": "F9"}, [b"123", b"456"]), ({"type": "map", "values": "R9"}, {"k": {"x": 5, "s": "v"}}),
+                        (["null", "F9", "E9"], b"uvw"), (["null", "F9", "E9"], "A"), ({"type": "array", "items": ["R9", "E9", "null"]}, [{"x": 0, "s": "q"}, "B", None])]:
+        w9 = {"type": "record", "name": "SkipN", "fields": [{"name": "d", "type": defs}, {"name": "a", "type": atype}, {"name": "b", "type": "long"}]}
+        r9 = {"type": "record", "name": "SkipN", "fields": [{"name": "d", "type": defs}, {"name": "b", "type": "long"}]}
+        wr = CC.impl_write(w9, {"d": dval, "a": aval, "b": 77})
+        ctx.count("corr:skip-by-name", repr(atype) + repr(aval), nontrivial=True)
+        if wr[0] != "ok":
+            continue
+        full = wr[1] + b"\x07"
+        try:
+            res = CC.impl_read(w9, full, r9)
+        except Exception as e:
+            res = ("raised", type(e).__name__, None)
+        good = res[0] == "ok" and isinstance(res[1], dict) and res[1].get("b") == 77 and res[2] == len(full) - 1
+        if not good:
+            ctx.violation("corr:skip-by-name", dict(writer_schema=w9, reader_schema=r9, bytes=full.hex(), kind="valid"), impl=repr(res)[:300],
+                          model="R:I77|1", signature="C03:skip:by-name-reference:" + ("raises-on-valid-encoding" if res[0] != "ok" else "misaligned-after-skip"),
+                          found_input=True)
     # ---- corr:skip
     exprs, sj2 = [], []
     for raw, parsed, named, data, kind in skip_jobs:
